@@ -73,10 +73,14 @@ pub struct ZoneFile {
     /// bytes of unused (but well-formed) designations appended to the abbreviation table
     #[serde(default)]
     pub extra_chars: usize,
+    /// leap-second records (occurrence in the leap-time scale, total correction); the model's transition
+    /// times stay Unix times and are written in the leap-time scale
+    #[serde(default)]
+    pub leaps: Vec<(i64, i32)>,
 }
 impl ZoneFile {
     pub fn bytes(&self) -> Vec<u8> {
-        crate::refmodel::zone::write_tzif_ext(&self.model, self.version, self.ind, self.explicit_footer, self.extra_chars)
+        crate::refmodel::zone::write_tzif_leap(&self.model, self.version, self.ind, self.explicit_footer, self.extra_chars, &self.leaps)
     }
 }
 
@@ -116,7 +120,7 @@ pub fn big_table_file() -> BoxedStrategy<ZoneFile> {
 /// structured zone model + file parameters. `max_transitions` bounds the transition count.
 pub fn zone_file(max_transitions: usize) -> BoxedStrategy<ZoneFile> {
     let version = prop_oneof![1 => Just(Version::V1), 2 => Just(Version::V2), 2 => Just(Version::V3)];
-    let ind = proptest::sample::select(vec![Indicators::None, Indicators::Wall, Indicators::Std, Indicators::Ut]);
+    let ind = proptest::sample::select(vec![Indicators::None, Indicators::Wall, Indicators::Std, Indicators::Ut, Indicators::StdOnly, Indicators::UtZerosOnly]);
     let start = prop_oneof![
         3 => -2_208_988_800i64..2_000_000_000,           // 1900..2033
         2 => -(1i64 << 31)..(1i64 << 31),
@@ -202,7 +206,66 @@ pub fn zone_file(max_transitions: usize) -> BoxedStrategy<ZoneFile> {
                 if transitions[n - 1].0 - transitions[n - 2].0 >= need { break; }
                 transitions.remove(n - 2);
             }
-            ZoneFile { model: Model { types, transitions, footer }, version, ind, explicit_footer: explicit, extra_chars: 0 }
+            ZoneFile { model: Model { types, transitions, footer }, version, ind, explicit_footer: explicit, extra_chars: 0, leaps: vec![] }
         })
+        .boxed()
+}
+
+
+/// leap-second records for a zone file: 1..=27 occurrences at non-negative leap times, at least 2.5e6 s
+/// apart, corrections stepping by +1 (mostly) or -1 from zero, every occurrence more than 1000 s away
+/// from every transition (in either scale)
+pub fn leap_records(transitions: &[(i64, usize)]) -> BoxedStrategy<Vec<(i64, i32)>> {
+    let ts: Vec<i64> = transitions.iter().map(|t| t.0).collect();
+    (proptest::collection::vec((2_500_000i64..60_000_000, prop::bool::weighted(0.85)), 1..=27), 0i64..400_000_000)
+        .prop_map(move |(steps, first)| {
+            let mut out: Vec<(i64, i32)> = vec![];
+            let mut at = first;
+            let mut corr = 0i32;
+            for (gap, up) in steps {
+                at += gap;
+                while ts.iter().any(|t| (t - at).abs() <= 1100) { at += 2300; }
+                corr += if up { 1 } else { -1 };
+                if out.is_empty() && corr == 0 { corr = 1; }
+                out.push((at, corr));
+            }
+            out
+        })
+        .boxed()
+}
+
+/// a file whose explicit transitions end exactly on (or 1-3 s before) a transition of its own footer rule,
+/// as zic writes them, optionally with leap-second records
+pub fn last_on_rule_file() -> BoxedStrategy<ZoneFile> {
+    (alt_rule(false).prop_filter("rule well inside the year", |r| r.well_inside_year() && matches!(r, Rule::Alt { std, dst, .. } if std.utoff != dst.utoff)), 1975i64..2090, 0usize..6, 0i64..=3, any::<bool>(), proptest::sample::select(vec![Version::V2, Version::V3]), any::<bool>())
+        .prop_flat_map(|(rule, y0, n, d, with_leaps, version, explicit)| {
+            let (std, dst) = match &rule { Rule::Alt { std, dst, .. } => (std.clone(), dst.clone()), Rule::Fixed(t) => (t.clone(), t.clone()) };
+            let other = ZType { utoff: std.utoff - 1800, isdst: false, abbr: "LMT".into() };
+            let types = vec![other, std.clone(), dst.clone()];
+            let probe = Model { types: vec![std.clone(), dst.clone()], transitions: vec![], footer: Some(rule.clone()) };
+            // the rule's own change points of the years y0 ..= y0 + n/2
+            let mut pts: Vec<i64> = vec![];
+            for y in y0..=y0 + (n as i64) / 2 + 1 {
+                pts.extend(probe.change_points_near(crate::refmodel::cal::days_from_civil(y, 7, 1) * 86_400));
+            }
+            pts.sort();
+            pts.dedup();
+            pts.retain(|p| *p >= crate::refmodel::cal::days_from_civil(y0, 1, 1) * 86_400);
+            pts.truncate(n + 1);
+            let type_at = |u: i64| if probe.offset_at(u) == dst.utoff { 2usize } else { 1usize };
+            let mut transitions: Vec<(i64, usize)> = vec![];
+            if let Some(first) = pts.first() { transitions.push((first - 40_000_000, 0)); }
+            for p in &pts { transitions.push((*p, type_at(*p))); }
+            // last explicit transition d seconds early: it then carries the type in effect before the switch
+            if d > 0 && transitions.len() >= 2 {
+                let k = transitions.len() - 1;
+                let at = transitions[k].0 - d;
+                transitions[k] = (at, type_at(at));
+            }
+            let m = Model { types, transitions: transitions.clone(), footer: Some(rule) };
+            let leaps = if with_leaps { leap_records(&transitions) } else { Just(vec![]).boxed() };
+            (Just(m), leaps, Just(version), Just(explicit))
+        })
+        .prop_map(|(model, leaps, version, explicit_footer)| ZoneFile { model, version, ind: Indicators::None, explicit_footer, extra_chars: 0, leaps })
         .boxed()
 }
